@@ -60,4 +60,16 @@ theorem litPow10_exact (k : Nat) (hk : k ≤ 22) : F64.mag (litPow10 k) = 10 ^ k
   have := List.all_eq_true.1 litPow10_small_tbl k (List.mem_range.2 (by omega))
   simpa using this
 
+/-- every `POW10` entry is `10^k·(1 ± ε)` -/
+theorem litPow10_rel_tbl : (List.range 309).all (fun k =>
+    decide (2 ^ 53 * F64.mag (litPow10 k) ≤ (2 ^ 53 + 1) * (10 ^ k * 2 ^ 1074)) &&
+    decide ((2 ^ 53 - 1) * (10 ^ k * 2 ^ 1074) ≤ 2 ^ 53 * F64.mag (litPow10 k))) = true := by
+  decide +kernel
+
+theorem litPow10_rel (k : Nat) (hk : k < 309) :
+    2 ^ 53 * F64.mag (litPow10 k) ≤ (2 ^ 53 + 1) * (10 ^ k * 2 ^ 1074) ∧
+    (2 ^ 53 - 1) * (10 ^ k * 2 ^ 1074) ≤ 2 ^ 53 * F64.mag (litPow10 k) := by
+  have := List.all_eq_true.1 litPow10_rel_tbl k (List.mem_range.2 hk)
+  simpa using this
+
 end SJ.Proofs.FloatDefault
